@@ -737,19 +737,26 @@ def round_half_even_int(t):
 def np_round(v, n=0):
     if not is_sym(v):
         return numpy.round(v, n)
-    if n != 0:
-        raise Unsupported("round with decimals")
+    if is_sym(n) or not isinstance(n, (int, numpy.integer)):
+        raise Unsupported("round with symbolic decimals")
     t, y = num(v)
     if y is int:
-        return Sym(t, int)
-    return Sym(z3.ToReal(round_half_even_int(t)), float)
+        if n >= 0:
+            return Sym(t, int)
+        raise Unsupported("round of an int to negative decimals")
+    if n == 0:
+        return Sym(z3.ToReal(round_half_even_int(t)), float)
+    # exact-real model of round-half-even at 10**-n (the FP artefacts of x*10**n are outside the model)
+    sc = z3.RealVal(10 ** n) if n > 0 else z3.RealVal(f"1/{10 ** (-n)}")
+    return Sym(z3.ToReal(round_half_even_int(t * sc)) / sc, float)
 
 
 def py_round(v, n=None):
     if not is_sym(v):
         return round(v) if n is None else round(v, n)
     if n is not None:
-        raise Unsupported("round with ndigits")
+        r = np_round(v, n)
+        return r
     t, y = num(v)
     if y is int:
         return Sym(t, int)
@@ -857,6 +864,17 @@ def subscript(base, idx):
     CTX.err(znot(zor(*conds)), "KeyError" if isinstance(base, dict) else "IndexError")
     if out is None:
         raise PathEnd()
+    return out
+
+
+def dict_get(base, key, default=None):
+    """dict.get(key, default) for a symbolic numeric key into a plain dict"""
+    ti, yi = num(key)
+    items = [(k, v) for k, v in base.items() if pytype(k) in (int, bool, float)]
+    out = default
+    for k, v in reversed(items):
+        c = ti == (int(k) if pytype(k) is not float else const_real(k))
+        out = merge(c, v, out)
     return out
 
 
@@ -1525,6 +1543,8 @@ def call_value(f, args, kwargs):
             return _native(f.__func__, [slf, *args], kwargs)
         if not _any_symbolic(args, kwargs) and not is_symbolic(slf):
             return _native(f, args, kwargs)
+        if type(slf) is dict and f.__name__ == "get" and args and is_sym(args[0]) and not kwargs:
+            return dict_get(slf, *args)
         if isinstance(slf, (dict, list)) and f.__name__ in ("get", "append", "extend", "update",
                                                             "items", "values", "keys", "setdefault",
                                                             "pop", "copy", "index"):
@@ -1536,6 +1556,8 @@ def call_value(f, args, kwargs):
             return _native(f, args, kwargs)
         if not _any_symbolic(args, kwargs):
             return _native(f, args, kwargs)
+        if type(slf) is dict and getattr(f, "__name__", "") == "get" and args and is_sym(args[0]) and not kwargs:
+            return dict_get(slf, *args)
         if isinstance(slf, (dict, list)) and getattr(f, "__name__", "") in (
                 "get", "append", "extend", "update", "items", "values", "keys", "setdefault",
                 "pop", "copy"):
@@ -1782,14 +1804,115 @@ def _i_where(args, kw):
     return np_where(*args)
 
 
-@intrinsic(numpy.ceil, math.ceil)
+@intrinsic(numpy.ceil)
 def _i_ceil(args, kw):
     return np_ceil(args[0])
 
 
-@intrinsic(numpy.floor, math.floor)
+@intrinsic(numpy.floor)
 def _i_floor(args, kw):
     return np_floor(args[0])
+
+
+@intrinsic(math.ceil)
+def _i_mceil(args, kw):
+    v = args[0]
+    return to_int(np_ceil(v)) if is_sym(v) else math.ceil(v)
+
+
+@intrinsic(math.floor)
+def _i_mfloor(args, kw):
+    v = args[0]
+    return to_int(np_floor(v)) if is_sym(v) else math.floor(v)
+
+
+def _trunc_real(t):
+    return z3.If(t >= 0, z3.ToInt(t), -z3.ToInt(-t))
+
+
+@intrinsic(math.trunc)
+def _i_mtrunc(args, kw):
+    v = args[0]
+    if not is_sym(v):
+        return math.trunc(v)
+    t, y = num(v)
+    return Sym(t, int) if y is int else Sym(_trunc_real(t), int)
+
+
+def _np_trunc(v):
+    if not is_sym(v):
+        return numpy.trunc(v)
+    t, y = num(v)
+    return Sym(z3.ToReal(t), float) if y is int else Sym(z3.ToReal(_trunc_real(t)), float)
+
+
+def _np_rint(v):
+    return np_round(v, 0)
+
+
+def _np_abs(v):
+    return py_abs(v) if is_sym(v) else numpy.abs(v)
+
+
+def _np_fabs(v):
+    return to_float(py_abs(v)) if is_sym(v) else numpy.fabs(v)
+
+
+def _np_sign(v):
+    if not is_sym(v):
+        return numpy.sign(v)
+    t, y = num(v)
+    if y is int:
+        return Sym(z3.If(t > 0, 1, z3.If(t < 0, -1, 0)), int)
+    return Sym(z3.If(t > 0, z3.RealVal(1), z3.If(t < 0, z3.RealVal(-1), z3.RealVal(0))), float)
+
+
+@intrinsic(math.fabs)
+def _i_mfabs(args, kw):
+    return _np_fabs(args[0]) if is_sym(args[0]) else math.fabs(args[0])
+
+
+@intrinsic(math.copysign)
+def _i_copysign(args, kw):
+    a, b = args
+    if not is_sym(a) and not is_sym(b):
+        return math.copysign(a, b)
+    if is_sym(b):
+        # the sign of a symbolic zero (-0.0) is not represented in the real model
+        tb, _ = num(b)
+        CTX.assumptions.append(tb != 0)
+        neg_b = tb < 0
+    else:
+        neg_b = z3.BoolVal(math.copysign(1.0, b) < 0)
+    mag = to_float(py_abs(a)) if is_sym(a) else abs(float(a))
+    return merge(neg_b, neg(mag) if is_sym(mag) else -mag, mag)
+
+
+@intrinsic(divmod)
+def _i_divmod(args, kw):
+    a, b = args
+    return (binop(ast.FloorDiv(), a, b), binop(ast.Mod(), a, b))
+
+
+@intrinsic(math.isnan)
+def _i_misnan(args, kw):
+    if is_sym(args[0]):
+        return False      # symbolic numbers are finite reals (NaN / inf inputs are outside the claim)
+    return math.isnan(args[0])
+
+
+@intrinsic(math.isinf, numpy.isinf)
+def _i_isinf(args, kw):
+    if is_sym(args[0]):
+        return False
+    return bool(numpy.isinf(args[0]))
+
+
+@intrinsic(math.isfinite, numpy.isfinite)
+def _i_isfinite(args, kw):
+    if is_sym(args[0]):
+        return True
+    return bool(numpy.isfinite(args[0]))
 
 
 @intrinsic(numpy.round, numpy.around)
@@ -1845,6 +1968,15 @@ INTRINSICS[numpy.logical_or] = _elementwise(_logical_or)
 INTRINSICS[numpy.logical_not] = _elementwise(_logical_not)
 INTRINSICS[numpy.maximum] = _elementwise(_np_maximum)
 INTRINSICS[numpy.minimum] = _elementwise(_np_minimum)
+INTRINSICS[numpy.fmax] = _elementwise(_np_maximum)     # differ from maximum only on NaN (outside the model)
+INTRINSICS[numpy.fmin] = _elementwise(_np_minimum)
+INTRINSICS[numpy.trunc] = _elementwise(_np_trunc)
+INTRINSICS[numpy.fix] = _elementwise(_np_trunc)
+INTRINSICS[numpy.rint] = _elementwise(_np_rint)
+INTRINSICS[numpy.abs] = _elementwise(_np_abs)
+INTRINSICS[numpy.absolute] = _elementwise(_np_abs)
+INTRINSICS[numpy.fabs] = _elementwise(_np_fabs)
+INTRINSICS[numpy.sign] = _elementwise(_np_sign)
 
 
 @intrinsic(numpy.isnan)
